@@ -575,6 +575,9 @@ func (p *nriPlugin) UpdateContainer(ctx context.Context, pod *api.PodSandbox, co
 		nri.Warn("UpdateContainer with real resource changes: %s -> %s",
 			old.String(), upd.String())
 		if err := m.policy.UpdateResources(c); err != nil {
+			// The runtime does not apply an update we refuse. Go back to the
+			// resources the container is still running with.
+			c.SetResourceUpdates(container.GetLinux().GetResources())
 			return nil, fmt.Errorf("failed to update resources: %w", err)
 		}
 	}
